@@ -40,7 +40,7 @@ def _free_port_block(n=12):
     """find n consecutive free loopback ports"""
     rnd = random.Random(os.getpid() * 7919 + int(time.time() * 1000) % 100000)
     for _ in range(200):
-        base = rnd.randrange(20000, 60000 - n)
+        base = rnd.randrange(10000, 32000 - n)   # below the kernel's ephemeral range (32768..60999): no outgoing connection takes them
         ok = True
         socks = []
         try:
@@ -154,6 +154,18 @@ class Server:
         t0 = time.time()
         while time.time() - t0 < wait:
             if self.proc.poll() is not None:
+                # most often a port of the block was taken between probing and binding: a server that has never run
+                # gets a new block (a restarted one keeps its ports and is simply started again)
+                tries = getattr(self, "_start_tries", 0)
+                if tries < 2:
+                    self._start_tries = tries + 1
+                    if not getattr(self, "_has_run", False):
+                        self.base = _free_port_block()
+                        self.port = self.base + 3
+                        self.url = f"http://127.0.0.1:{self.port}"
+                        self._write_conf()
+                    time.sleep(1.0)
+                    return self.start(wait)
                 raise vlib.Infra("ts-server exited at start:\n" + self.tail_log())
             try:
                 with urllib.request.urlopen(self.url + "/ping", timeout=1) as r:
@@ -169,6 +181,7 @@ class Server:
             try:
                 st, body = self.http("GET", "/query", {"q": "show databases"}, auth=self.extra.get("_admin"))
                 if st == 200 and "error" not in body[:200]:
+                    self._has_run = True
                     return
             except Exception:
                 pass
